@@ -188,3 +188,11 @@ Proof. vm_compute. discriminate. Qed.
 Example monitor_rejects_nodial_record :
   monitor_case [1; 2; 1; 0; 0;  15; 0; 3;  0; 0; 1; 0;  9; 0; 0; 0]%Z <> [].
 Proof. vm_compute. discriminate. Qed.
+
+(* a success recorded on a Blocked counter that leaves it Blocked is rejected
+   ("a single success while blocked clears the state") *)
+Example probe_rejects_success_not_unblocking :
+  probe_run true 2 2 0 0
+    ([(TDet false (DRecord (mkAddr true true false 0) true), DO [] (2, (0, 2, 0))%Z (9, (0, 0, 0))%Z)]
+       : list (top * dobs)) <> [].
+Proof. vm_compute. discriminate. Qed.
